@@ -76,3 +76,17 @@ Definition pending (t : thread) : list N :=
   match t_pc t with AddMapped k => [k] | Callback e _ => [e] | _ => [] end.
 Definition in_flight (ths : list thread) : nat := length (flat_map pending ths).
 Definition quiescent (ths : list thread) : Prop := forall t, In t ths -> t_pc t = Idle.
+
+(* which lock the NEXT atomic section of a thread takes: the verdict-map lock (lruCache.m) or the
+   lock of the recency list (lru.Cache.lock).  Part of the model that the correspondence run observes:
+   while the map lock is held elsewhere, an operation whose first section is a map section cannot have
+   touched the recency list. *)
+Inductive lockid := LMap | LLru.
+Definition section_lock (t : thread) : option lockid :=
+  match t_pc t with
+  | Idle => match t_prog t with [] => None | _ => Some LMap end     (* Add: map write; Lookup / ClearExpired: map read *)
+  | AddMapped _ | LookRead _ => Some LLru
+  | Clearing [] => None
+  | Clearing (_ :: _) => Some LLru
+  | Callback _ _ => Some LMap
+  end.
